@@ -419,13 +419,22 @@ class _ParseTreeProcessor(parsimonious.NodeVisitor):
         return _expression.Set(exp_list)
 
     def visit_literal_real(self, node: _Node, _c: _Children) -> _expression.Rational:
-        return _expression.Rational(fractions.Fraction(node.text.replace("_", "")))
+        try:
+            return _expression.Rational(fractions.Fraction(node.text.replace("_", "")))
+        except ValueError:  # The literal is too long, see sys.set_int_max_str_digits().
+            raise DSDLSyntaxError("Cannot parse the real literal %s..." % node.text[:32]) from None
 
     def visit_literal_integer(self, node: _Node, _c: _Children) -> _expression.Rational:
-        return _expression.Rational(int(node.text.replace("_", ""), base=0))
+        try:
+            return _expression.Rational(int(node.text.replace("_", ""), base=0))
+        except ValueError:  # The literal is too long, see sys.set_int_max_str_digits().
+            raise DSDLSyntaxError("Cannot parse the integer literal %s..." % node.text[:32]) from None
 
     def visit_literal_integer_decimal(self, node: _Node, _c: _Children) -> _expression.Rational:
-        return _expression.Rational(int(node.text.replace("_", "")))
+        try:
+            return _expression.Rational(int(node.text.replace("_", "")))
+        except ValueError:  # The literal is too long, see sys.set_int_max_str_digits().
+            raise DSDLSyntaxError("Cannot parse the integer literal %s..." % node.text[:32]) from None
 
     def visit_literal_boolean_true(self, _n: _Node, _c: _Children) -> _expression.Boolean:
         return _expression.Boolean(True)
